@@ -5,6 +5,9 @@
      C16|vf|set|pk|msg|ctx|sig|tag                 -> ok | rej | badkey
      C16|ts|set|T or N|id|sk|msg|addrnd|tag        -> hex(prefix‖sig) | err   (Tink signer)
      C16|tv|set|T or N|id|pk|msg|sig|tag           -> ok | rej | badkey       (Tink verifier)
+     C16|gk|set|T or N|id|skSeed|skPrf|pkSeed|mode|tag   key created by Tink from the seeds on the tape:
+        mode full -> hex(sk)|hex(pk)|id with sk = keygen of the NAMED set, pk = sk[2n:]
+        mode proj -> hex(seeds)|4n|2n|true|true|id (Table 2 sizes, pk = sk[2n:], root = root of the named set)
    (tag: the generator's expectation and mutation label; not read here) *)
 let sha256 m = ocall "hash" ["sha256"] [m]
 let sha512 m = ocall "hash" ["sha512"] [m]
@@ -42,4 +45,13 @@ let handle line =
   | [_; "tv"; set; v; id; pk; msg; sg; _] ->
     let (p, hs) = inst set in
     verout (tink_verify p hs (v = "T") (n_of_dec id) (unhex pk) (unhex msg) (unhex sg))
+  | [_; "gk"; set; _; id; sks; skp; pks; mode; _] ->
+    let (p, hs) = inst set in
+    let n = int_of_nat p.p_n in
+    if mode = "full" then begin
+      let sk = keygen p hs (unhex sks) (unhex skp) (unhex pks) in
+      let rec drop k l = if k = 0 then l else match l with [] -> [] | _ :: t -> drop (k - 1) t in
+      hexs sk ^ "|" ^ hexs (drop (2 * n) sk) ^ "|" ^ id
+    end else
+      Printf.sprintf "%s|%d|%d|true|true|%s" (hexs (unhex sks @ unhex skp @ unhex pks)) (4 * n) (2 * n) id
   | _ -> failwith "case"
